@@ -88,14 +88,16 @@ def run_case(case, ctx):
         # square cube) the SGZ legitimately holds other header values (C04); the round trip is then decided with thorough detection
         det = 'thorough'
     case = dict(case, detection=det)
-    conv.convert_segy(src['path'], sgz, case['rate'], tuple(case['bs']), detection=det)
+    # (regular IBM / IEEE sources: every third conversion uses the reduced-I/O reader - the export must not depend on which reader filled the file)
+    iops = geom == '3d' and src['fmt'] in (1, 5) and case['id'].split(':')[1].isdigit() and int(case['id'].split(':')[1]) % 3 == 1
+    conv.convert_segy(src['path'], sgz, case['rate'], tuple(case['bs']), detection=det, reduce_iops=iops)
     known = 'export:source-with-extended-textual-headers' if case['src'].get('ext', 0) else None
     bad = []
     try:
         if case['route'] == 'api':
             with env.quiet():
                 with SgzConverter(sgz) as c:
-                    pre = ['none', 'tracefield', 'header', 'samples', 'selective-load', 'none'][int(case['id'].split(':')[1]) % 6]
+                    pre = ['none', 'tracefield', 'header', 'samples', 'selective-load', 'none'][int(case['id'].split(':')[1]) % 6 if case['id'].split(':')[1].isdigit() else 0]
                     # the exporter is also a reader: what was read through it before must not change what it exports
                     if pre == 'tracefield':
                         stored = [int(k) for k, v in c.segy_traceheader_template.items() if type(v).__name__ == 'FileOffset']
